@@ -368,12 +368,22 @@ func (r *run) streamsView() *failure {
 
 // settle waits for the pool's books and the upstream's view to agree with the model.
 // onBooks lets the caller claim a books mismatch for a specific root cause.
+// syncActions return only after the pool has finished its bookkeeping (NewStream, ResetStream and
+// the harness' own counter updates are synchronous calls): a books mismatch after them is not waiting
+// for anything, so the wait is kept short; closes seen by the upstream are asynchronous in any case.
+var syncActions = map[string]bool{"lease": true, "lease-overflow": true, "local-reset": true, "foreign-load": true, "lost-request-timeout": true}
+
 func (r *run) settle(after string) *failure {
 	if f := r.streamsView(); f != nil {
 		return f
 	}
 	want := r.expect()
 	var hard *failure
+	booksEnd := time.Now().Add(r.d)
+	if syncActions[after] && r.mode == pool.ModeAccept {
+		booksEnd = time.Now().Add(r.d / 5)
+	}
+	booksLate := false
 	msg := r.poll(func() string {
 		var soft string
 		hard, soft = r.upstreamView()
@@ -381,6 +391,11 @@ func (r *run) settle(after string) *failure {
 			return ""
 		}
 		if d := diffBooks(r.read(), want); d != "" {
+			if time.Now().After(booksEnd) {
+				booksLate = true
+				hard = r.failf(true, "books-differ-from-truth:after-"+after, "after %s the pool's counters differ from the model at quiescence (got != want): %s; model: %s", after, d, r.describe())
+				return ""
+			}
 			return "books: " + d
 		}
 		return soft
@@ -388,6 +403,7 @@ func (r *run) settle(after string) *failure {
 	if hard != nil {
 		return hard
 	}
+	_ = booksLate
 	if msg == "" {
 		return r.streamsView()
 	}
